@@ -82,6 +82,13 @@ pub fn verif_bump_object_counter(n: u64) {
     OBJECT_COUNTER.fetch_add(n, std::sync::atomic::Ordering::Relaxed);
 }
 
+/// Sets the process-wide object counter to `n`, so that a simulated run starts
+/// from a recorded value whatever was compiled earlier in this process.
+#[cfg(fontations_verif)]
+pub fn verif_set_object_counter(n: u64) {
+    OBJECT_COUNTER.store(n, std::sync::atomic::Ordering::Relaxed);
+}
+
 #[derive(Debug, Default)]
 pub(crate) struct ObjectStore {
     pub(crate) objects: HashMap<TableData, ObjectId>,
